@@ -3,6 +3,8 @@
 //                                         data and on shared pre-built immutable geometries, with context creation/destruction
 //                                         inside the scripts; every thread's transcript is compared with the transcript of the
 //                                         same script run alone beforehand.
+//   c13 sharedlocate <seed> <n> <outbase> n cases; each: one lattice polygon prepared and fully built before sharing, then 2..8 threads ask
+//                                         point predicates of it at once (different points, many rounds); letters I/B/E/X per point
 //   c13 replay <file>                     case lines -> observation on stdout
 //   c13 scenario <name> <threads> <iters> targeted scenarios for the race candidates (meant for the tsan flavour):
 //                                         refcount | interrupt | version | hasz | gcflags | sharedprep
@@ -185,6 +187,128 @@ static std::string runCase(int T, uint64_t cseed, std::string* caseLine, Out* ou
     return "ok";
 }
 
+// ---------------------------------------------------------------------------------------------- stream `sharedlocate`
+// One prepared polygon (lattice coordinates), every lazily created part built before sharing (point predicates asked by the
+// main thread until the simple locator, the indexed locator, its interval index and the facet-distance index exist), then
+// asked point questions by T threads at once — own contexts, own point objects, different points whose locations differ, each
+// thread cycling through its points for many rounds.  Every single answer of every round is compared with what the location of
+// the point implies; the location letter reported for a point is I / B / E when all its answers agreed with one location and
+// X otherwise.  The Lean side (`Model/Conc/IndexedLocate.lean`) computes the letters from rings and points alone.
+// case line  : SL <T> <rounds> <nrings> {<n> x y ...} {<k> x y ...}(T times)      (decimal lattice integers; converted exactly)
+// expect line: letters of thread 0 ; letters of thread 1 ; ...
+struct LPt { long x, y; };
+struct SLCase { int T = 0; long rounds = 0; std::vector<std::vector<LPt>> rings; std::vector<std::vector<LPt>> pts; };
+
+static long gcdl(long a, long b) { a = std::labs(a); b = std::labs(b); while (b) { long t = a % b; a = b; b = t; } return a; }
+
+static SLCase genSL(Rng& r, Out* out) {
+    SLCase c; c.T = 2 + (int) r.below(7); c.rounds = 400 + (long) r.below(1600);
+    int kind = (int) r.below(10);
+    if (kind == 0) {            // rectangle (answered by the rectangle short cuts, not by the locator)
+        long w = 1 + (long) r.below(12), h = 1 + (long) r.below(12); c.rings.push_back({{0, 0}, {w, 0}, {w, h}, {0, h}, {0, 0}});
+        if (out) out->count("poly.rectangle");
+    } else {                    // star-shaped lattice ring around the origin, optionally with a hole (a smaller star)
+        std::vector<LPt> dirs; int m = 1 + (int) r.below(3);
+        for (long x = -m; x <= m; x++) for (long y = -m; y <= m; y++) if ((x || y) && gcdl(x, y) == 1) dirs.push_back({x, y});
+        std::sort(dirs.begin(), dirs.end(), [](const LPt& a, const LPt& b) { return std::atan2((double) a.y, (double) a.x) < std::atan2((double) b.y, (double) b.x); });
+        for (;;) { std::vector<LPt> sel; int keep = 30 + (int) r.below(70); for (auto& d : dirs) if (r.chance(keep)) sel.push_back(d);
+            if (sel.size() < 3) continue; bool ok = true;
+            for (size_t i = 0; i < sel.size(); i++) { const LPt& a = sel[i]; const LPt& b = sel[(i + 1) % sel.size()]; if (a.x * b.y - a.y * b.x <= 0) ok = false; }
+            if (!ok) continue;
+            std::vector<LPt> shell, hole; bool withHole = r.chance(40);
+            for (auto& d : sel) { long k = 2 + (long) r.below(5); shell.push_back({d.x * k * 2, d.y * k * 2}); hole.push_back({d.x * (1 + (long) r.below(2)), d.y * (1 + (long) r.below(2))}); }
+            shell.push_back(shell[0]); hole.push_back(hole[0]);
+            if (r.chance(50)) std::reverse(shell.begin(), shell.end());
+            c.rings.push_back(shell); if (withHole) c.rings.push_back(hole);
+            if (out) out->count(withHole ? "poly.star+hole" : "poly.star");
+            break; }
+    }
+    long lo = 0, hi = 0; for (auto& p : c.rings[0]) { lo = std::min(lo, std::min(p.x, p.y)); hi = std::max(hi, std::max(p.x, p.y)); }
+    for (int t = 0; t < c.T; t++) { int k = 1 + (int) r.below(5); std::vector<LPt> v;
+        for (int i = 0; i < k; i++) { int w = (int) r.below(10); LPt q;
+            if (w < 6) q = {lo - 1 + (long) r.below((uint64_t) (hi - lo + 3)), lo - 1 + (long) r.below((uint64_t) (hi - lo + 3))};       // lattice point in or just outside the envelope
+            else if (w < 8) { auto& rg = c.rings[r.below(c.rings.size())]; q = rg[r.below(rg.size())]; }                               // a vertex
+            else if (w < 9) { auto& rg = c.rings[r.below(c.rings.size())]; size_t e = r.below(rg.size() - 1); q = {(rg[e].x + rg[e + 1].x) / 2, (rg[e].y + rg[e + 1].y) / 2}; }   // (near) an edge midpoint
+            else q = {0, 0};
+            v.push_back(q); }
+        c.pts.push_back(v); }
+    return c;
+}
+
+static std::string slLine(const SLCase& c) {
+    std::string s = "SL " + std::to_string(c.T) + " " + std::to_string(c.rounds) + " " + std::to_string(c.rings.size());
+    for (auto& rg : c.rings) { s += " " + std::to_string(rg.size()); for (auto& p : rg) s += " " + std::to_string(p.x) + " " + std::to_string(p.y); }
+    for (auto& v : c.pts) { s += " " + std::to_string(v.size()); for (auto& p : v) s += " " + std::to_string(p.x) + " " + std::to_string(p.y); }
+    return s;
+}
+
+static bool slParse(const std::string& line, SLCase& c) {
+    std::istringstream is(line); std::string tag; long nr; if (!(is >> tag >> c.T >> c.rounds >> nr) || tag != "SL" || c.T < 1 || c.T > 64 || nr < 1) return false;
+    for (long i = 0; i < nr; i++) { long n; if (!(is >> n) || n < 4) return false; std::vector<LPt> rg((size_t) n); for (auto& p : rg) if (!(is >> p.x >> p.y)) return false; c.rings.push_back(rg); }
+    for (int t = 0; t < c.T; t++) { long k; if (!(is >> k) || k < 0) return false; std::vector<LPt> v((size_t) k); for (auto& p : v) if (!(is >> p.x >> p.y)) return false; c.pts.push_back(v); }
+    return true;
+}
+
+static GEOSGeometry* slRing(GEOSContextHandle_t h, const std::vector<LPt>& rg) {
+    std::vector<double> b; for (auto& p : rg) { b.push_back((double) p.x); b.push_back((double) p.y); }
+    return GEOSGeom_createLinearRing_r(h, GEOSCoordSeq_copyFromBuffer_r(h, b.data(), (unsigned) rg.size(), 0, 0));
+}
+
+// the answers one question must give for a point at location loc (0 interior, 1 boundary, 2 exterior); question kinds 0..7
+static const int SLKINDS = 8;
+static int slAsk(GEOSContextHandle_t h, const GEOSPreparedGeometry* pg, const GEOSGeometry* pt, double x, double y, int kind) {
+    switch (kind) {
+    case 0: return GEOSPreparedContains_r(h, pg, pt);
+    case 1: return GEOSPreparedIntersects_r(h, pg, pt);
+    case 2: return GEOSPreparedCovers_r(h, pg, pt);
+    case 3: return GEOSPreparedContainsXY_r(h, pg, x, y);
+    case 4: return GEOSPreparedIntersectsXY_r(h, pg, x, y);
+    case 5: return GEOSPreparedContainsProperly_r(h, pg, pt);
+    case 6: return GEOSPreparedDisjoint_r(h, pg, pt);
+    default: return GEOSPreparedTouches_r(h, pg, pt);
+    }
+}
+static int slWant(int kind, int loc) {
+    switch (kind) { case 0: case 3: case 5: return loc == 0; case 1: case 2: case 4: return loc != 2; case 6: return loc == 2; default: return loc == 1; }
+}
+
+static std::string runSL(const SLCase& c, Out* out) {
+    std::vector<GEOSGeometry*> holes; for (size_t i = 1; i < c.rings.size(); i++) holes.push_back(slRing(H0, c.rings[i]));
+    GEOSGeometry* poly = GEOSGeom_createPolygon_r(H0, slRing(H0, c.rings[0]), holes.data(), (unsigned) holes.size());
+    if (!poly) return "bad-polygon";
+    const GEOSPreparedGeometry* pg = GEOSPrepare_r(H0, poly);
+    // build before sharing + sequential reference: the location of every point, from contains / intersects asked alone
+    std::vector<std::vector<int>> loc(c.pts.size());
+    for (int rep = 0; rep < 2; rep++) for (size_t t = 0; t < c.pts.size(); t++) { loc[t].assign(c.pts[t].size(), 2);
+        for (size_t i = 0; i < c.pts[t].size(); i++) { double x = (double) c.pts[t][i].x, y = (double) c.pts[t][i].y; GEOSGeometry* p = GEOSGeom_createPointFromXY_r(H0, x, y);
+            int con = GEOSPreparedContains_r(H0, pg, p), its = GEOSPreparedIntersects_r(H0, pg, p); loc[t][i] = con == 1 ? 0 : its == 1 ? 1 : 2;
+            for (int k = 0; k < SLKINDS; k++) if (slAsk(H0, pg, p, x, y, k) != slWant(k, loc[t][i])) loc[t][i] = 3;    // not even consistent alone
+            double d = -1; GEOSPreparedDistance_r(H0, pg, p, &d); if ((d == 0.0) != (loc[t][i] != 2) && loc[t][i] != 3) loc[t][i] = 3;
+            GEOSGeom_destroy_r(H0, p); } }
+    { GEOSGeometry* p = GEOSGeom_createPointFromXY_r(H0, 0.5, 0.25); for (int i = 0; i < 4; i++) { GEOSPreparedContains_r(H0, pg, p); GEOSPreparedIntersects_r(H0, pg, p); } GEOSGeom_destroy_r(H0, p); }
+    std::vector<std::vector<int>> bad(c.pts.size()); for (size_t t = 0; t < c.pts.size(); t++) bad[t].assign(c.pts[t].size(), 0);
+    std::atomic<int> go{0}; std::vector<std::thread> th; const int T = c.T; long calls = 0;
+    for (int t = 0; t < T; t++) th.emplace_back([&, t]() {
+        GEOSContextHandle_t h = newCtx(); std::vector<GEOSGeometry*> mine;
+        for (auto& q : c.pts[t]) mine.push_back(GEOSGeom_createPointFromXY_r(h, (double) q.x, (double) q.y));
+        go.fetch_add(1); while (go.load() < T) std::this_thread::yield();
+        for (long rd = 0; rd < c.rounds; rd++) for (size_t i = 0; i < mine.size(); i++) {
+            int kind = (int) ((rd + (long) i + t) % SLKINDS);
+            if (loc[t][i] != 3 && slAsk(h, pg, mine[i], (double) c.pts[t][i].x, (double) c.pts[t][i].y, kind) != slWant(kind, loc[t][i])) bad[t][i]++;
+            if (rd % 64 == 63 && loc[t][i] != 3) { double d = -1; GEOSPreparedDistance_r(h, pg, mine[i], &d); if ((d == 0.0) != (loc[t][i] != 2)) bad[t][i]++; }
+        }
+        for (auto g : mine) GEOSGeom_destroy_r(h, g);
+        GEOS_finish_r(h);
+    });
+    for (auto& x : th) x.join();
+    std::string e;
+    for (size_t t = 0; t < c.pts.size(); t++) { if (t) e += ';'; if (c.pts[t].empty()) e += '-';
+        for (size_t i = 0; i < c.pts[t].size(); i++) { calls += c.rounds; e += (bad[t][i] || loc[t][i] == 3) ? 'X' : "IBE"[loc[t][i]]; if (out) out->count(std::string("loc.") + "IBEX"[loc[t][i]]); } }
+    if (out) { out->count("threads." + std::to_string(T)); out->count("calls", calls); }
+    GEOSPreparedGeom_destroy_r(H0, pg); GEOSGeom_destroy_r(H0, poly);
+    return e;
+}
+
 // ---------------------------------------------------------------------------------------------- targeted scenarios (tsan)
 // fresh shared object per round: all threads hit the not-yet-computed lazy cache together
 static int lazyRounds(const std::string& name, int T, long rounds) {
@@ -278,8 +402,14 @@ int main(int argc, char** argv) {
         buildShared(12345);
         if (stream == "replay") {
             std::ifstream f(argv[2]); std::string line;
-            while (std::getline(f, line)) { auto tk = split(line); if (tk.size() < 3 || tk[0] != "T") { std::cout << "bad-line\n"; continue; }
+            while (std::getline(f, line)) { auto tk = split(line);
+                if (!tk.empty() && tk[0] == "SL") { SLCase c; if (!slParse(line, c)) std::cout << "bad-line\n"; else std::cout << runSL(c, nullptr) << "\n"; continue; }
+                if (tk.size() < 3 || tk[0] != "T") { std::cout << "bad-line\n"; continue; }
                 std::cout << runCase(std::stoi(tk[1]), std::stoull(tk[2]), nullptr, nullptr) << "\n"; }
+        } else if (stream == "sharedlocate") {
+            if (argc < 5) return 2;
+            uint64_t seed = std::stoull(argv[2]); long n = std::stol(argv[3]); Out out(argv[4]); Rng r(seed ^ 0x51ULL);
+            for (long i = 0; i < n; i++) { SLCase c = genSL(r, &out); out.emit(slLine(c), runSL(c, &out)); }
         } else if (stream == "threads") {
             if (argc < 5) return 2;
             uint64_t seed = std::stoull(argv[2]); long n = std::stol(argv[3]); Out out(argv[4]); Rng r(seed);
